@@ -72,3 +72,53 @@ Definition f_ok (c : fcase) : bool :=
   list_eqb (fun a b => N.eqb (fst a) (fst b) && N.eqb (snd a) (snd b))
            (map (fun d => (fst d, m_tag (snd d))) (rev (f_out s))) obs.
 Definition FM (h i s t : N) (tr : bool) : fmsg := {| m_height := h; m_inst := i; m_sender := s; m_tag := t; m_trigger := tr |}.
+
+(* ---- node traces (Term.v) ---- *)
+From LH Require Import Msg Term.
+Definition SG i o := {| s_id := i; s_ok := o |}.
+Definition RF t i h v x := {| r_type := t; r_inst := i; r_height := h; r_view := v; r_hash := x |}.
+Definition PF a b c d := {| pf_ppref := a; pf_ppsnd := b; pf_pref := c; pf_psnds := d |}.
+Definition VT t i h v p s := {| v_type := t; v_inst := i; v_height := h; v_view := v; v_proof := p; v_snd := s |}.
+Definition BK h i bad := {| b_height := h; b_id := i; b_bad := bad |}.
+Definition CFG me inst base rot excl fc := {| c_me := me; c_inst := inst; c_base := base; c_rot := rot; c_excl := excl; c_failcommit := fc |}.
+
+Definition out_eqb (a b : out) : bool :=
+  match a, b with
+  | OSend t m, OSend t' m' => Msg.list_eqb N.eqb t t' && msg_eqb (canon_msg m) m'
+  | OCommit k r s o, OCommit k' r' s' o' => block_eqb k k' && bref_eqb r r' && Msg.list_eqb ssig_eqb s s' && Bool.eqb o o'
+  | ONewRound h p l, ONewRound h' p' l' => N.eqb h h' && opt_eqb block_eqb p p' && Bool.eqb l l'
+  | OArm h v, OArm h' v' => N.eqb h h' && N.eqb v v'
+  | OStop, OStop => true
+  | OPanic, OPanic => true
+  | _, _ => false
+  end.
+
+(* observable state: height, view, handler installed, and for a node in committee: prepared view, latest, committed *)
+Definition sobs := (N * N * bool * option (option N * N * bool))%type.
+Definition node_obs (n : node) : sobs :=
+  (n_h n, n_v n, n_hasterm n, match n_term n with Some t => Some (t_prepared t, t_latest t, t_committed t) | None => None end).
+Definition sobs_eqb (a b : sobs) : bool :=
+  let '(h, v, ht, t) := a in let '(h', v', ht', t') := b in
+  N.eqb h h' && N.eqb v v' && Bool.eqb ht ht' &&
+  opt_eqb (fun x y => opt_eqb N.eqb (fst (fst x)) (fst (fst y)) && N.eqb (snd (fst x)) (snd (fst y)) && Bool.eqb (snd x) (snd y)) t t'.
+
+Definition tstep := (event * list out * sobs)%type.
+Fixpoint run_trace (c : ncfg) (n : node) (evs : list tstep) : bool :=
+  match evs with
+  | [] => true
+  | (e, outs, so) :: r =>
+      let n' := step c (clear_out n) e in
+      if negb (n_oof n') && Msg.list_eqb out_eqb (rev (n_out n')) outs && sobs_eqb (node_obs n') so then run_trace c n' r else false
+  end.
+Definition ncase := (ncfg * list tstep)%type.
+Definition n_ok (cs : ncase) : bool := run_trace (fst cs) node_init (snd cs).
+
+(* debugging aid: index of the first diverging event with the model's outputs and state there *)
+Fixpoint diagnose (c : ncfg) (n : node) (i : N) (evs : list tstep) : option (N * list out * sobs * bool) :=
+  match evs with
+  | [] => None
+  | (e, outs, so) :: r =>
+      let n' := step c (clear_out n) e in
+      if negb (n_oof n') && Msg.list_eqb out_eqb (rev (n_out n')) outs && sobs_eqb (node_obs n') so then diagnose c n' (i + 1) r
+      else Some (i, map (fun o => match o with OSend t m => OSend t (canon_msg m) | _ => o end) (rev (n_out n')), node_obs n', n_oof n')
+  end.
